@@ -102,7 +102,9 @@ def check_axes(run, A):
             if not all(isinstance(x, int) and not isinstance(x, bool) for x in vals):
                 continue
             n += 1
-            bad = [x for x in vals if x >= 0]
+            from ..walk import named_front_axes
+            named = named_front_axes(opnd) if opnd is not None else 0
+            bad = [x for x in vals if x >= named]          # (an axis in front that the function itself built means the same for every input rank)
             if bad and (fn.qual, cname) in NONNEG_AXIS_OK:
                 run.ok('R-ELL', f'{short}: {cname}(axis={v}) [listed]', fn.loc(t.node), NONNEG_AXIS_OK[(fn.qual, cname)])
                 continue
@@ -235,7 +237,10 @@ def reaches_unrestored(t, flat_ids, flats, seen):
 
 def check_flatten_restore(run, A):
     n = 0
+    from ..terms import known_funcs as _known
     for fn in scope(A):
+        if fn.qual not in _known() and fn.name.startswith('_'):
+            continue          # a private helper a later change introduced (it may hand the flat array AND the leading shape to its caller): analysed in place, in its callers
         g = A.graphs.get(fn)
         flats = flatten_terms(g)
         if not flats:
@@ -275,15 +280,36 @@ def check_index_local(run, A):
     it = strip_views(L.iter)
     ok = is_call_to(it, 'numpy.ndindex', 'builtin.range', 'builtin.enumerate', 'builtin.zip') or it.op in ('call', 'param', 'sub', 'mu', 'attr')
     stores = [e for e in L.body_events if e.kind == 'store']
+    undecided = []
+
+    def loop_index(ix):
+        """the loop's own index, or the multi-index np.unravel_index(i, S) of a flat loop `for i in range(prod(S))` (one problem per i as well)"""
+        ix = strip_views(ix)
+        if ix.op == 'elem' and ix.extra is L:
+            return True
+        if is_call_to(ix, 'numpy.unravel_index') and call_arg(ix, 0, 'indices') is not None:
+            i0 = strip_views(call_arg(ix, 0, 'indices'))
+            if i0.op == 'elem' and i0.extra is L:
+                shp = call_arg(ix, 1, 'shape')
+                rng = call_parts(it)
+                cnt = strip_views(rng[1][0]) if rng[0] == 'builtin.range' and len(rng[1]) == 1 else None
+                while cnt is not None and is_call_to(cnt, 'builtin.int', 'operator.index') and len(call_parts(cnt)[1]) == 1:
+                    cnt = strip_views(call_parts(cnt)[1][0])          # int(np.prod(shape))
+                if cnt is not None and is_call_to(cnt, 'math.prod', 'numpy.prod') and shp is not None and strip_views(call_arg(cnt, 0)) is strip_views(shp):
+                    return True
+                undecided.append('a flat loop index unravelled with a shape that is not visibly the one whose product bounds the loop')
+        return False
     reads_ok = True
     for e in L.body_events:
         if e.kind == 'call' and call_parts(e.term)[0] and call_parts(e.term)[0].endswith('find_eigenvalues_v3'):
             a = call_arg(e.term, 1) if call_parts(e.term)[0].startswith('method:') else call_arg(e.term, 0)
             r = loop_role(a, L)
             a0 = strip_views(a)
-            reads_ok = (r is not None and r[0] == 'slice') or (a0.op == 'sub' and strip_views(a0.args[1]).op == 'elem' and strip_views(a0.args[1]).extra is L)
-    w_ok = bool(stores) and all((loop_role(e.term.args[1], L) or ('',))[0] == 'index' or (strip_views(e.term.args[1]).op == 'elem' and strip_views(e.term.args[1]).extra is L)
-                                for e in stores)
+            reads_ok = (r is not None and r[0] == 'slice') or (a0.op == 'sub' and loop_index(a0.args[1]))
+    w_ok = bool(stores) and all((loop_role(e.term.args[1], L) or ('',))[0] == 'index' or loop_index(e.term.args[1]) for e in stores)
+    if undecided and not (ok and reads_ok and w_ok):
+        run.unresolved('R-ELL', 'ComplexBinghamTrainer._fit: per-problem solver loop is index-local', fn.loc(L.node), undecided[0])
+        return
     run.check(ok and reads_ok and w_ok, 'R-ELL', 'ComplexBinghamTrainer._fit: per-problem solver loop is index-local', fn.loc(L.node), '',
               f'loop over np.ndindex(leading shape): {ok}; reads the index-th eigenvalue set: {reads_ok}; writes the index-th result: {w_ok}', construct=f'R-ELL::{q}::index-local')
 
